@@ -55,6 +55,18 @@ CHECKS = {
         note='End-of-stream is taken as reported when eof is true, a read returns b"" or iteration stops; ASGI histories '
              'respect the documented restriction not to mix read() and iteration on a partially consumed body; tell() is '
              'compared only on histories without exhaust()/close().'),
+    'C03': dict(
+        level='fault_enumeration', ref='DESIGN.md section 4 (C03)',
+        technique=TECH + 'per sampled stack, an action (complete / HTTP error / handled or unhandled app error) is injected '
+                  'at every call site in turn (single-site sweep) and at random site subsets; exact call-trace equality '
+                  'against a reference interpreter; ASGI under the simulated loop; lifespan handler failures swept',
+        text='Fault enumeration over call sites: for each sampled stack (components x method subsets x sync/*_async x hooks x '
+             'independent/dependent x routed/unrouted x WSGI/ASGI) every (site, action) pair is injected in its own run, '
+             'plus random multi-site assignments; the recorded call trace, the (resource, req_succeeded) arguments of every '
+             'process_response and the final status must equal a 60-line reference interpreter of the documented '
+             'discipline. Lifespan: handler failure swept over every handler; order/events/termination checked.',
+        note='Stacks are sampled (<=4 components, <=3 hooks); within a sampled stack the single-site sweep is complete up '
+             'to the sweep cap. Hooks never set resp.complete; handlers return or raise HTTPError/HTTPStatus only.'),
 }
 
 NOT_YET = {p: 'claimed in DESIGN.md; check under construction in this round (not yet registered)' for p in
